@@ -16,6 +16,7 @@ def main():
     ap.add_argument('--no-line', action='store_true')
     ap.add_argument('--jobs', type=int, default=None)
     ap.add_argument('--limit', type=int, default=None)
+    ap.add_argument('--triage', action='store_true')
     a = ap.parse_args()
     # deterministic hashing: re-exec once with a fixed hash seed
     want = os.environ.get('VERIF_HASHSEED', '0')
@@ -29,7 +30,7 @@ def main():
     seed = int(os.environ.get('VERIF_SEED', '0') or 0)
     if a.replay:
         sys.exit(core.replay(a.check, a.replay, print_line=not a.no_line))
-    sys.exit(core.run_check(a.check, a.tier, seed, jobs=a.jobs, limit=a.limit))
+    sys.exit(core.run_check(a.check, a.tier, seed, jobs=a.jobs, limit=a.limit, triage=a.triage))
 
 
 if __name__ == '__main__':
